@@ -324,3 +324,34 @@ Proof.
   intros fuel cnt c o f rest d tu te errs t fb W G O U F L.
   exact (conj (better_origin_gen c o fb W G) (flatten_look_inside fuel cnt c o f rest d tu te errs t G O U F L)).
 Qed.
+
+(* ------------------------------------------------------------------------------------- *)
+(* 4. the entry points over the thread-local option cell (M_Frames_Ambient): re-entrant     *)
+(*    calls use their own arguments, whatever extraction is in progress around them         *)
+Require Import M_Frames_Ambient.
+
+Lemma set_wc_id c : set_wc c (with_ctx c) = c.
+Proof. destruct c. reflexivity. Qed.
+
+Lemma api_ambient_independent cell arg c root :
+  api_extract cell arg c root = (extract (set_wc c (fst arg)) root, cell) /\
+  api_outermost cell arg c root = (outermost (set_wc c (fst arg)) root, cell).
+Proof.
+  destruct arg as [w r]. unfold api_extract, api_outermost, push, iter_under. cbn [fst].
+  rewrite outermost_is_head_result. unfold extract, extract_t.
+  change (root_q (set_wc c w) root) with (root_q c root).
+  generalize (run default_fuel false (set_wc c w) (root_q c root) [] [] [] 0).
+  generalize (run default_fuel true (set_wc c w) (root_q c root) [] [] [] 0).
+  intros p1 p2. split; reflexivity.
+Qed.
+
+Lemma api_outermost_eq_head cell arg c root s :
+  fst (api_extract cell arg c root) = Ok s ->
+  fst (api_outermost cell arg c root) = match s_frames s with f :: _ => OFrame f | [] => ORaise (s_errs s) end
+  /\ snd (api_outermost cell arg c root) = cell /\ snd (api_extract cell arg c root) = cell
+  /\ fst (api_outermost cell arg c root) = fst (api_outermost None arg c root).
+Proof.
+  destruct (api_ambient_independent cell arg c root) as [E O].
+  destruct (api_ambient_independent None arg c root) as [_ O0].
+  rewrite E, O, O0. cbn [fst snd]. intros H. repeat split. apply outermost_eq_head. exact H.
+Qed.
